@@ -8,11 +8,15 @@ def _n(tier, quick, thorough):
     return quick if tier == "quick" else thorough
 
 
-def comp_layer(run, tag, methods, pmux_ns, seed, tier, kinds=None):
+def comp_layer(run, tag, methods, pmux_ns, seed, tier, kinds=None, also=()):
     from contracts import components as CC
     src = Source()
     g = CC.generate(run, src, methods, pmux_ns, kinds)
     n = discharge_tagged(run, g, tag)
+    for t in also:
+        for ob in g.obls:
+            if t in ob.get("tags", []) and tag not in ob.get("tags", []):
+                run.discharge(ob); n += 1
     if n == 0:
         run.fault("no component obligation generated for tag %s" % tag)
     canaries(run, g)
@@ -67,7 +71,8 @@ def c01(tier, seed):
 # ================================================================================================================ C02
 def c02(tier, seed):
     run = Run("C02", tier, seed, "other", "bin/check C02 --tier " + tier)
-    comp_layer(run, "C02", ("pwr",), (1,), seed, tier)
+    # the balance obligations assume that (Vout, Iin) follow the kind's laws: those laws are discharged here as prerequisites
+    comp_layer(run, "C02", ("outp", "inp", "pwr"), (1, 2), seed, tier, also=("LAW",))
     from . import system_layer as SL
     SL.solve_slice(run, "C02")
     lean_layer(run, ["power_balance"])
@@ -119,7 +124,7 @@ def c06(tier, seed):
     run = Run("C06", tier, seed, "other", "bin/check C06 --tier " + tier)
     from . import system_layer as SL
     comp_layer(run, "C06", ("outp", "inp", "pwr"), (1, 2), seed, tier)
-    SL.phase_lkup(run); SL.propagation(run); SL.solve_slice(run, "C06")
+    SL.phase_lkup(run); SL.propagation(run); SL.solve_slice(run, "C06"); SL.registry(run, "C06")
     from bounded import families as BF
     run.add_bounded("phase equivalences (solve(phase=p) == rows of p; unknown phase; no-config == phase-less)", BF.phase_family(seed, _n(tier, 150, 4000)))
     table_layer(run, "solve-table-oracle/phases", ["C06"], seed, _n(tier, 400, 20000), dict(p_phases=1.0))
@@ -148,4 +153,52 @@ def c09(tier, seed):
     table_layer(run, "warnings oracle", ["C09"], seed, _n(tier, 500, 20000), dict(p_limits=0.9, p_phases=0.5, n_sources=(1, 2), p_mux=0.3, p_neg=0.4))
     from bounded import families as BF
     run.add_bounded("limit boundaries and key subsets", BF.warn_boundary_family(seed, _n(tier, 200, 5000)))
+    return run.finish()
+
+
+# ================================================================================================================ C14 / C15 / C16
+def _hist(run, props, seed, tier):
+    from bounded import hist
+    res = hist.history_family(seed, tier, props)
+    faults = [f for f in res["failures"] if f.get("fault")]
+    if faults: run.fault("bounded generator fault: %s" % faults[0]["text"])
+    res["failures"] = [f for f in res["failures"] if not f.get("fault")]
+    run.add_bounded("edit histories", res)
+
+
+def c14(tier, seed):
+    run = Run("C14", tier, seed, "other", "bin/check C14 --tier " + tier)
+    from . import system_layer as SL
+    SL.registry(run, "C14")
+    _hist(run, ["C14"], seed, tier)
+    return run.finish()
+
+
+def c15(tier, seed):
+    run = Run("C15", tier, seed, "other", "bin/check C15 --tier " + tier)
+    from . import system_layer as SL
+    SL.registry(run, "C15")
+    _hist(run, ["C15"], seed, tier)
+    return run.finish()
+
+
+def c16(tier, seed):
+    run = Run("C16", tier, seed, "other", "bin/check C16 --tier " + tier)
+    from . import system_layer as SL
+    SL.registry(run, "C16"); SL.find_domain(run); SL.solve_slice(run, "C16")
+    _hist(run, ["C16"], seed, tier)
+    from bounded import families as BF
+    run.add_bounded("construction orders of the same structure", BF.order_family(seed, _n(tier, 60, 2000), ["C16"]))
+    run.notes.append("whole-history equivalence of two System objects is not a per-function contract: decided bounded (edited vs rebuilt from an independent reference model)")
+    return run.finish()
+
+
+# ================================================================================================================ C08
+def c08(tier, seed):
+    run = Run("C08", tier, seed, "other", "bin/check C08 --tier " + tier)
+    from . import system_layer as SL
+    SL.solve_slice(run, "C08"); SL.pri_inp(run)
+    from bounded import families as BF
+    run.add_bounded("rail report oracle", BF.rail_family(seed, _n(tier, 500, 20000)))
+    run.notes.append("rail_rep() is pure pandas code: its statement is decided bounded; P covers the Rail in / Rail out labelling of the solve() rows it sums over")
     return run.finish()
